@@ -126,6 +126,7 @@ class EnumSpec:
         self.bits = None          # explicit maximum_bits or None
         self.default_case = None  # enum-level $default enum_case text or None
         self.outer = None         # name of the enclosing struct (nested enum) or None
+        self.after_struct = False # top-level enum declared after the struct
         self.outer_default_case = None
 
     def cpp_name(self):
@@ -156,7 +157,8 @@ class EnumSpec:
 class EnumModule:
     """One module: 1..3 enums (some nested in a struct), and a struct with fields of the enum types."""
 
-    def __init__(self, rng, forbidden=(), p_invalid=0.12, p_collision=0.06, p_bad_case=0.05, want_fields=True):
+    def __init__(self, rng, forbidden=(), p_invalid=0.12, p_collision=0.06, p_bad_case=0.05, want_fields=True, shape=None):
+        self.shape = shape
         self.rng = rng
         self.names = NameGen(rng, forbidden)
         self.module_default_case = None
@@ -252,19 +254,45 @@ class EnumModule:
         if r.random() < 0.35:
             self.module_default_case = self.case_attr()
         used_types = set()
-        n_enums = r.choice([1, 1, 2, 2, 3])
+        n_enums = r.choice([1, 1, 2, 2, 3, 3, 4])
+        if self.shape == "scoped-default":
+            n_enums = r.choice([2, 3, 4])
         for _ in range(n_enums):
             self.enums.append(self.make_enum(used_types))
         # one of the enums may be nested in the struct that uses it
         self.struct_name = self.names.camel(used_types)
         used_types.add(self.struct_name)
         self.struct_default_case = None
+        if r.random() < 0.25:
+            self.struct_default_case = self.case_attr()
         if r.random() < 0.3:
             e = r.choice(self.enums)
             e.outer = self.struct_name
+            e.outer_default_case = self.struct_default_case
+        for e in self.enums:
+            if e.outer is None and r.random() < 0.35:
+                e.after_struct = True
+        if self.shape == "scoped-default":
+            # a $default enum_case on an EARLIER type (not on the module) followed by types without the attribute:
+            # by the language's scoping rule the later types keep the default spelling
+            self.features.add("scoped-default-then-plain-enum")
+            self.module_default_case = None
+            one = r.choice(["kCamelCase", "kCamelCase", "SHOUTY_CASE, kCamelCase"])
+            for e in self.enums:
+                e.outer, e.outer_default_case, e.after_struct, e.default_case = None, None, False, None
+                for v in e.values:
+                    v["attr"] = None
             if r.random() < 0.5:
-                self.struct_default_case = self.case_attr()
-                e.outer_default_case = self.struct_default_case
+                self.enums[0].default_case = one            # earlier enum carries the default
+                self.struct_default_case = None
+                for e in self.enums[1:]:
+                    e.after_struct = r.random() < 0.5
+            else:
+                self.struct_default_case = one              # the struct carries it, plain enums follow the struct
+                if len(self.enums) > 2 and r.random() < 0.5:
+                    self.enums[0].outer, self.enums[0].outer_default_case = self.struct_name, one
+                for e in self.enums[1:]:
+                    e.after_struct = True
         if self.want_fields:
             self.make_fields()
 
@@ -327,7 +355,7 @@ class EnumModule:
             L.append('[(cpp) $default enum_case: "%s"]' % self.module_default_case)
         L.append("")
         for e in self.enums:
-            if e.outer is None:
+            if e.outer is None and not e.after_struct:
                 L.append("enum %s:" % e.name)
                 L += e.body_lines("  ")
                 L.append("")
@@ -350,4 +378,9 @@ class EnumModule:
         if n == 0:
             L.append("  0 [+1]  UInt  filler")
         L.append("")
+        for e in self.enums:
+            if e.outer is None and e.after_struct:
+                L.append("enum %s:" % e.name)
+                L += e.body_lines("  ")
+                L.append("")
         return "\n".join(L)
